@@ -6,14 +6,23 @@ Three kinds of cases, all on the REAL code under the virtual-time loop with Fake
 
 * ``dl``  — real ``TransferManager._on_peer_transfer_request`` → ``_initialize_download`` → ``_download_file`` →
   real ``PeerConnection.receive_transfer_ticket / send_message(offset) / receive_file`` (real aiofiles) against a
-  scripted sender: honest (sends F from the offset it was sent), or dishonest (ignores the offset, appends extra
-  bytes, announces another size, stops early); bytes are released in segments; every attempt ends with a close,
-  a reset, a stall (180 s read time-out) or a break before the offset went out; several attempts per case.
+  scripted sender: honest (sends the shared file from the offset it was sent — the file, and with it the announced
+  size, may CHANGE between the attempts: grow, shrink, become empty, be replaced), or dishonest (ignores the offset,
+  appends extra bytes, announces another size, stops early); bytes are released in segments (also: a read that ends
+  exactly at the OLD end of the file); every attempt ends with a close, a reset, a stall (180 s read time-out), a
+  break before the offset went out, ``pause()`` (also while a chunk is with the disk-write thread: on disk, not
+  counted), or the death of the process; between attempts ``queue()`` / ``pause()`` / ``write_cache()`` / a restart
+  of the client from the cache (real ``TransferShelveCache`` + ``read_cache()``; what the dying process had not
+  flushed is lost). A small monitor-only family uses peer-chosen file names no file system takes (NUL, too long).
 * ``ul``  — real ``_initialize_upload`` → ``_upload_file`` → real ``send_file`` / ``receive_until_eof`` on a real
   file against a scripted downloader (any offset, also beyond the size); a pass-through gate in front of the
-  upload limiter releases one ``send_file`` iteration at a time; write errors, closes and resets at any point.
+  upload limiter releases one ``send_file`` iteration at a time; write errors, closes and resets at any point
+  (a reset in the EOF wait is a failure that is reported with PeerUploadFailed).
 * ``pair`` — two unmodified ``SoulSeekClient``s and a simulated server on one FakeNet: a real download of a
-  shared file with the file connection reset after k bytes (repeatedly), then no more faults.
+  shared file with the file connection reset after k bytes (repeatedly; either end learns of it first), then no
+  more faults; the control-plane state of the pair is sampled and checked against the invariant of the Lean
+  control-plane model (``FileXfer.Ctl``). Variant: one downloader and 2-3 uploaders at once (every fresh uploader
+  hands out the same first ticket).
 """
 from __future__ import annotations
 
@@ -1197,44 +1206,74 @@ class C04(Property):
             '0..size for sizes <= 300 (quick: a seeded third of them, thorough: all; larger sizes sampled) x {reset, '
             'close, stall} followed by a fault-free attempt, (b) random histories of 1..4 attempts over {fault-free, cut '
             'after k bytes, break before the offset went out, dishonest sender: ignores the offset / extra bytes / '
-            'other announced size / stops early}, optional pre-existing local file (prefix of F, all of F, foreign, '
-            'longer than announced), segmentations {whole, byte-wise, 127/128/129/8191/8192/8193-sized, halves, random, '
+            'other announced size / stops early, pause() with or without a chunk in the disk-write thread, death of the '
+            'process after a cache write} with queue() / pause() / write_cache() / restart between the attempts, optional '
+            'pre-existing local file (prefix of F, all of F, foreign, longer than announced), (b2) 220 quick / 4000 '
+            'thorough "changing" cases: the remote file grows / shrinks (to >= or < the local size) / becomes empty / is '
+            'replaced (same or other size) between the attempts of an honest uploader that announces the new size, the '
+            'retry segmented with a boundary exactly at the old end of file (60 %), in one burst under a 128-byte-read '
+            'limit with the old end a multiple of 128 away, or like (a); 110/2000 "restart" cases (cache written before the '
+            'first attempt / after the k-th delivery / after a cut / while PAUSED, more data, process dies — file '
+            'truncated to what had reached the OS —, new TransferManager + read_cache(), fault-free attempt); 110/2000 '
+            '"pause" cases (pause() with a chunk of 1..20000 bytes in the disk-write thread or while waiting, queue(), '
+            'request refused while PAUSED, resume); 6 unusable-name cases (monitor only); '
+            'segmentations {whole, byte-wise, 127/128/129/8191/8192/8193-sized, halves, random, '
             'bursts}, the 4-byte ticket arriving whole / byte-wise / split anywhere (0..0.5 s between the pieces), download '
             'limiter off / 1 / 50 / 4096 KiB/s; ul cases (8-byte offset arriving whole / byte-wise / split anywhere): same sizes, offsets {0,1,size-1,size,'
             'size+1,beyond,random,127..129}, limiter on/off, ops {one send_file iteration, write error, peer close, peer '
             'reset} incl. re-attempts after FAILED/COMPLETE; pair cases (40 quick / 400 thorough): two full clients + '
             'simulated server with per-connection latencies, file connection reset after k bytes 0..3 times (the '
-            'downloader learns of the reset 0..400 s after the uploader, so PeerUploadFailed arrives before or after), '
-            'then fault-free. All from VERIF_SEED. '
-            'Non-trivial: >= 2 attempts, or a cut / dishonest sender / pre-existing file / offset > 0 / failure op. '
-            'Distinct = distinct canonical case')
+            'uploader (2/3) or the downloader (1/3) learns of the reset first, the other end 0..400 s later, so '
+            'PeerUploadFailed / the re-queue request arrive before or after), then fault-free; control-plane state '
+            'sampled every virtual second around the faults; + 8 / 80 cases with 2-3 uploaders at once (equal / '
+            'different sizes, requests 0..2 s apart, one file connection slower). All from VERIF_SEED. '
+            'Non-trivial: >= 2 attempts, or a cut / dishonest sender / pre-existing file / offset > 0 / failure op / user '
+            'or restart op. Distinct = distinct canonical case')
     assumptions = [
-        'the local file is written only by this download (append mode) and the shared file does not change while it is '
-        'uploaded; OS file semantics (append, getsize, seek/read) are exercised on real temp files, not modelled',
+        'the local file is written only by this download (append mode) and the shared file does not change WHILE it is '
+        'uploaded (between attempts it may); OS file semantics (append, getsize, seek/read, user-space buffering) are '
+        'exercised on real temp files, not modelled: a restart takes the number of bytes that had reached the OS as an '
+        'input of the environment (>= the size the file had when the attempt opened it)',
         'TCP is modelled by FakeNet: in-order delivery into a real asyncio.StreamReader, segment boundaries chosen by '
         'the schedule, reset = ConnectionResetError on both ends (unread bytes are lost), close = EOF after the '
         'buffered bytes; write back-pressure is not simulated',
-        'aiofiles runs inline (SimLoop executor), time is virtual; the 180 s transfer read time-out is the only timer '
-        'that matters and is exercised by the "stall" ending',
-        'user actions during a transfer (abort, pause, re-queue of a COMPLETE download) and file-system errors are out '
-        'of scope here (C03, C06); an honest uploader announces the true size and sends the file from the offset it '
-        'was sent',
-        'Lean model: retry control plane (PeerUploadFailed, remote re-queueing, slot management) is not modelled — it '
-        'is exercised by the pair-level cases only; C04_progress is about the data plane of one fault-free attempt '
-        'from any reachable state',
+        'aiofiles runs inline (SimLoop executor) except in the pause-in-write cases, where a write is performed at '
+        'once and its completion is withheld; time is virtual; the 180 s transfer read time-out is the only timer '
+        'that matters at loop level and is exercised by the "stall" ending',
+        'abort(), removal and re-queueing a COMPLETE download (a NEW file, C09) are out of scope here (C03, C06); an '
+        'honest uploader announces the size the file has when the attempt starts and sends the file from the offset it '
+        'was sent; when the remote file changed between attempts nothing is claimed about the bytes before the offset '
+        '(the protocol cannot compare them) nor about any outcome other than "not COMPLETE" when the file became '
+        'shorter than the local file',
+        'pair level: faults are RESETS of the file connection (either end first, any delay). A downloader that gives '
+        'up by its own read time-out closes the connection in an orderly way: if its re-queue request overtakes that '
+        'close the uploader ignores it and then takes the close for the end of a complete upload — not repairable '
+        'without a protocol change; silent stalls are not generated at pair level',
+        'Lean control-plane model (FileXfer.Ctl): tickets are not modelled (a stale reply is accepted: more behaviours); '
+        'C04_pair_progress_partial starts from quiescent states; that every fair fault-free continuation reaches '
+        'quiescence is exercised (3600 virtual seconds per pair), not proved; the tie of the control-plane model is the '
+        'invariant evaluated on sampled real states, not an exact trace correspondence',
     ]
     modelled = ('PeerConnection.receive_file / send_file / receive_until_eof (loops, chunk sizes 128 / 8192 from the '
                 'regenerated limiter constants, EOF / error outcomes); TransferManager._on_peer_transfer_request '
-                '(download branch: accept / refuse COMPLETE / ignore while processing), _initialize_download from the '
-                'offset on (offset = local file size, bytes_transfered = offset, failure to send the offset), '
-                '_download_file (remaining = filesize - offset, outcome by is_transfered), _initialize_upload from the '
-                'received offset on, _upload_file (seek, send loop, write error, EOF wait, outcome by is_transfered), '
-                'Transfer.is_transfered / progress callback. Exercised, not modelled: the hand-shake readers '
+                '(download branch: accept / refuse COMPLETE, PAUSED / ignore while processing), _initialize_download from the '
+                'announced size and the offset on (filesize = request.filesize, offset = local file size whatever the '
+                'counter says, bytes_transfered = offset, failure to send the offset), '
+                '_download_file (remaining = filesize - offset, outcome by is_transfered), the cancellation of the download '
+                'task by pause() inside the disk write (chunk written, not counted), Paused/Incomplete/FailedState.queue, '
+                'write_cache / read_cache (persisted state, counter, size, path; DOWNLOADING restored as INCOMPLETE / '
+                'COMPLETE), _initialize_upload from the '
+                'received offset on, _upload_file (seek, send loop, write error, EOF wait, read error in the EOF wait, '
+                'PeerUploadFailed, outcome by is_transfered), Transfer.is_transfered / progress callback; control plane '
+                '(FileXfer.Ctl): manage_transfers re-queue decision + remotely_queued, _on_peer_transfer_queue, '
+                '_on_peer_transfer_request / reply, _on_peer_upload_failed, hand-shake time-outs, reset_queue_vars. '
+                'Exercised, not modelled: the hand-shake readers '
                 'PeerConnection.receive_transfer_ticket / receive_transfer_offset and _on_peer_initialized (ticket and '
                 'offset delivered whole, byte-wise or split at any point, with time passing in between — the model '
-                'sees their concatenation), aiofiles, '
-                'the transfer state classes, rate limiter timing (C20), naming (C09), full clients + server + retry '
-                'control plane (pair cases)')
+                'sees their concatenation), the (username, ticket) matching of file connections (multi-uploader pair '
+                'cases), aiofiles / Python file buffering, '
+                'the transfer state classes, rate limiter timing (C20), naming (C09), full clients + server '
+                '(pair cases)')
 
     def regenerate(self):
         return [rate_constants.generate(common.REPO, common.LEAN)]
